@@ -37,6 +37,8 @@ func c15Streams(binary, big bool) []c15Stream {
 	}
 	add("set", o(wire.Cmd{Kind: wire.Set, Key: "ka", Value: val, Flags: 3}))
 	add("set-big", o(wire.Cmd{Kind: wire.Set, Key: "kb", Value: bigVal, Flags: 4}))
+	// a value beyond 64 KiB (parsers and handlers may treat such bodies differently)
+	add("set-huge", o(wire.Cmd{Kind: wire.Set, Key: "kh", Value: mkValue(11, 70000), Flags: 5}))
 	add("add", o(wire.Cmd{Kind: wire.Add, Key: "kn", Value: val}))
 	add("replace", o(wire.Cmd{Kind: wire.Replace, Key: "ka", Value: val}))
 	add("append", o(wire.Cmd{Kind: wire.Append, Key: "ka", Value: []byte("tail")}))
@@ -333,6 +335,9 @@ func TestC15(t *testing.T) {
 				for p := 0; p <= len(stream); p++ {
 					if !thorough() && len(stream) > 400 && p > 64 && p < len(stream)-64 && p%9 != 0 {
 						continue // quick: thin out the middle of large values
+					}
+					if len(stream) > 20000 && p > 64 && p < len(stream)-64 && p%997 != 0 && p != 65536+40 && p != 65537+40 {
+						continue // very large values: every 997th offset in the middle, both tiers
 					}
 					c := c15Case{Cfg: cc.Cfg, Port: cc.Port, Binary: binary, Stream: s.Name, Prefix: p}
 					c.Overlap = p%5 == 2 || p == 0 // a fifth of the prefixes (and the empty one) run with an overlapping idle client
